@@ -1255,6 +1255,10 @@ def oracle_rx_honesty(case, impl):
             read_total += (len(ev["out"].split()[0]) - 5) // 2
         if ev["op"] != "poll" or "dgrams" not in ev:
             continue
+        if ev["fp"].get("st", "").startswith(("LastAck", "Closed")):
+            # the remote's FIN has been consumed: a well-behaved peer has sent nothing numbered beyond it, and for
+            # bogus data beyond a FIN the bitmap is not meaningful (DESIGN 11): not judged
+            return hits
         for d in ev["dgrams"]:
             if d["sack"] is not None:
                 raw = (bytes(d["sack"]) + bytes(8))[:8]
@@ -1389,10 +1393,10 @@ def oracle_acked_not_resent(case, impl):
     hits = []
     if any(l.startswith(("vs tmode", "vs chanclose")) for l in case):
         return []
-    acked, pending, highest, cum = set(), [], None, None
+    acked, pending, highest, cum, plen_seen = set(), [], None, None, {}
     for ev in tr.events:
         if ev["op"] == "new":
-            acked, pending = set(), []
+            acked, pending, plen_seen = set(), [], {}
             highest = (int(ev["opts"].get("our", 101)) - 1) % 65536
             cum = highest
         if ev["op"] == "inject" and "dgram" in ev:
@@ -1419,10 +1423,17 @@ def oracle_acked_not_resent(case, impl):
                 if d["type"] == 1 and (highest is None or _md(d["seq"], highest) > 0):
                     highest = d["seq"]
                 continue
+            if (_md(d["seq"], cum) <= 0 or d["seq"] in acked) and plen_seen.get(d["seq"]) not in (None, d["plen"]):
+                # the number comes back with a different size: it was a size probe that was popped after expiry,
+                # re-segmented, and whose first copy had been delivered after all - the known finding D2
+                hits.append({"sig": {"oracle": "stream", "what": "diverged_after_delivered_probe_was_resplit"},
+                             "text": f"poll at t={ev['t']} ns re-sends seq {d['seq']} with {d['plen']} bytes; it was first sent as a {plen_seen[d['seq']]}-byte size probe that expired, was re-segmented, and has meanwhile been acknowledged: sender and receiver disagree about the bytes of that number (D2)"})
+                return hits
             if _md(d["seq"], cum) <= 0 or d["seq"] in acked:
                 hits.append({"sig": {"oracle": "acked_not_resent", "what": "acknowledged_segment_retransmitted"},
                              "text": f"poll at t={ev['t']} ns puts data seq {d['seq']} on the wire although the peer had acknowledged it ({'cumulatively, ack_nr ' + str(cum) if _md(d['seq'], cum) <= 0 else 'selectively'})"})
                 return hits
+            plen_seen.setdefault(d["seq"], d["plen"])
             if highest is None or _md(d["seq"], highest) > 0:
                 highest = d["seq"]
     return hits
